@@ -15,9 +15,9 @@ import (
 
 func init() {
 	core.Register(&core.Check{
-		ID: "C24",
-		Rule: "cases: (a) PRNG-filled messages (boundary scalars, NaN payloads, +-Inf, -0, 64-bit extremes, strings incl. non-UTF-8 in proto2 fields, extensions, groups, maps, oneofs, expanded and unexpanded Any, unknown fields sprinkled at several depths) of every linked message type (generated and dynamicpb) under the 8 combinations of Multiline, Indent, EmitASCII; oracle: Unmarshal(Marshal(m)) is Equal and snapshot-equal (floats by bit pattern, NaNs equal) to m without unknown fields; (b) float32 bit patterns through prototext on FloatValue and through the text encoder/tokenizer directly: a 2^20-stride sample plus a +-2 neighbourhood of every power of two and of 4096 PRNG patterns in quick, all 2^32 in thorough; 10^5 (quick) / 10^7 (thorough) doubles; distinct = distinct (type, options, output) or bit patterns; non-trivial = populated message / non-zero pattern",
-		Assume: []string{"proto.Equal and model/snapshot.go (bit-pattern float comparison)"},
+		ID:         "C24",
+		Rule:       "cases: (a) PRNG-filled messages (boundary scalars, NaN payloads, +-Inf, -0, 64-bit extremes, strings incl. non-UTF-8 in proto2 fields, extensions, groups, maps, oneofs, expanded and unexpanded Any, unknown fields sprinkled at several depths) of every linked message type (generated and dynamicpb) under the 8 combinations of Multiline, Indent, EmitASCII; oracle: Unmarshal(Marshal(m)) is Equal and snapshot-equal (floats by bit pattern, NaNs equal) to m without unknown fields; (b) float32 bit patterns through prototext on FloatValue and through the text encoder/tokenizer directly: a 2^20-stride sample plus a +-2 neighbourhood of every power of two and of 4096 PRNG patterns in quick, all 2^32 in thorough; 10^5 (quick) / 10^7 (thorough) doubles; distinct = distinct (type, options, output) or bit patterns; non-trivial = populated message / non-zero pattern",
+		Assume:     []string{"proto.Equal and model/snapshot.go (bit-pattern float comparison)"},
 		Exhaustive: func(tier string) bool { return false },
 		Batches: func(tier string) []core.Batch {
 			bs := stdBatches([]string{"base"}, 12)
